@@ -242,6 +242,7 @@ Theorem loop_enter_records_end fuel m pre lp bp body bq cp post :
 Proof.
   intros Hc Hb Hpc. rewrite interp_S; unfold interp_step. rewrite Hpc, (stmt_at_app code pre (FLoop lp) _ Hc).
   replace (S (length pre)) with (length (pre ++ [FLoop lp])) by solve_len.
+  rewrite (stmt_at_app code (pre ++ [FLoop lp]) (FBlockStart bp) (body ++ FBlockEnd bq :: FContinue cp :: post)) by solve_code Hc.
   rewrite (skip_block_lands_after code (pre ++ [FLoop lp]) bp body bq (FContinue cp :: post) m); [|solve_code Hc|exact Hb].
   cbn [bind].
   assert (Hn : stmt_at code (length (pre ++ [FLoop lp]) + length body + 2) = Some (FContinue cp)).
